@@ -9,8 +9,10 @@ import (
 	"fmt"
 	"math"
 	"reflect"
+	"sort"
 	"strconv"
 	"strings"
+	"sync"
 	"testing"
 	"time"
 
@@ -880,3 +882,73 @@ var c16Mode = Register(Prop[c16ModeCase]{
 })
 
 func TestC16ConversionRule(t *testing.T) { Check(t, c16Mode) }
+
+// ---------------------------------------------------------------------------------------
+// parameter types that print alike: types declared inside functions (or in packages of the same name) have the same
+// String() although they are different types of different kinds. Each handler gets its arguments converted to its own.
+
+func registerAmountAsInt(dr *ysgo.DialogueRunner, name string, got *[]string) error {
+	type Amount int
+	return dr.ConvertAndAddCommand(name, func(a Amount) { *got = append(*got, fmt.Sprintf("%s int-kind %d", name, int(a))) })
+}
+
+func registerAmountAsFloat(dr *ysgo.DialogueRunner, name string, got *[]string) error {
+	type Amount float64
+	return dr.ConvertAndAddCommand(name, func(a Amount) { *got = append(*got, fmt.Sprintf("%s float-kind %v", name, float64(a))) })
+}
+
+func registerAmountAsString(dr *ysgo.DialogueRunner, name string, got *[]string) error {
+	type Amount string
+	return dr.ConvertAndAddCommand(name, func(a Amount) { *got = append(*got, fmt.Sprintf("%s string-kind %q", name, string(a))) })
+}
+
+type c16AlikeCase struct {
+	Order []int `json:"order"` // the order in which the three handlers are registered
+}
+
+func runC16Alike(c c16AlikeCase) Verdict {
+	src := "title: Start\n---\n<<asint 7>>\n<<asfloat 0.75>>\n<<asstring word>>\n<<asfloat {1 / 4}>>\nend\n===\n"
+	dr, err := ysgo.NewDialogueRunner(nil, "abc", strings.NewReader(src))
+	if err != nil {
+		return failf("script does not load: %v", err)
+	}
+	var mu sync.Mutex
+	var got []string
+	regs := []func() error{
+		func() error { return registerAmountAsInt(dr, "asint", &got) },
+		func() error { return registerAmountAsFloat(dr, "asfloat", &got) },
+		func() error { return registerAmountAsString(dr, "asstring", &got) },
+	}
+	for _, i := range c.Order {
+		if err := regs[i](); err != nil {
+			return failf("registration %d failed: %v", i, err)
+		}
+	}
+	_ = &mu
+	h := &host{dr: dr, storer: newRecStorer()}
+	h.drive(nil, nil, 10, false)
+	time.Sleep(5 * time.Millisecond)
+	if n := len(h.trace); n < 2 || h.trace[0].K != "line" || h.trace[0].Text != "end" {
+		return failf("handlers whose parameter types are all called Amount (int, float64 and string kinds, declared in three functions), registered in the order %v: unexpected trace %s (received: %v)", c.Order, strings.ReplaceAll(showTrace(h.trace), "\n", " / "), got)
+	}
+	want := []string{"asint int-kind 7", "asfloat float-kind 0.75", `asstring string-kind "word"`, "asfloat float-kind 0.25"}
+	sort.Strings(want)
+	sorted := append([]string{}, got...)
+	sort.Strings(sorted)
+	if strings.Join(sorted, "; ") != strings.Join(want, "; ") {
+		return failf("handlers whose parameter types are all called Amount (int, float64 and string kinds), registered in the order %v, received %v, want %v", c.Order, got, want)
+	}
+	return Verdict{NonTrivial: true}
+}
+
+var c16Alike = Register(Prop[c16AlikeCase]{ID: "C16", Name: "types-that-print-alike", Run: runC16Alike})
+
+func TestC16TypesThatPrintAlike(t *testing.T) {
+	Enumerate(t, c16Alike, true, "three converted commands whose parameter types are function-local types all named Amount, of int, float64 and string kind, registered in each of the 6 orders", func(yield func(c16AlikeCase) bool) {
+		for _, o := range [][]int{{0, 1, 2}, {0, 2, 1}, {1, 0, 2}, {1, 2, 0}, {2, 0, 1}, {2, 1, 0}} {
+			if !yield(c16AlikeCase{Order: o}) {
+				return
+			}
+		}
+	})
+}
